@@ -454,7 +454,7 @@ class ScopeRender:
         n, k = self.nm(it["name"], c), it["kind"]
         if it.get("form") == "call":
             return "%s()" % n
-        return {"obj": "sizeof(%s)", "typedef": "sizeof(%s)", "param": "sizeof(*%s)", "enum": "%s", "macro": "%s",
+        return {"obj": "sizeof(%s)", "xobj": "sizeof(%s)", "xfunc": "sizeof(*%s())", "typedef": "sizeof(%s)", "param": "sizeof(*%s)", "enum": "%s", "macro": "%s",
                 "struct": "sizeof(struct %s)", "union": "sizeof(union %s)"}[k] % n
 
     def render(self):
@@ -577,6 +577,10 @@ class ScopeRender:
                             out.append("enum { %s = %d };" % (n, u))
                     elif k == "typedef":
                         out.append("typedef char %s[%d];" % (n, u))
+                    elif k == "xobj":        # declaration with linkage: u is the size of the ONE linked entity of that spelling
+                        out.append("extern char %s[%d];" % (n, u))
+                    elif k == "xfunc":
+                        out.append("char (*%s(void))[%d];" % (n, u))
                     elif k == "obj":
                         if top == "for":
                             if c == 0:
@@ -621,6 +625,10 @@ class ScopeRender:
                         out.append("%s chkv_%d_%d;" % (n, K, c))            # typedef name in declaration position
                     elif it["kind"] == "obj" and top != "file":
                         out.append("%s[0];" % n)                              # object name starting an expression statement
+                    elif it["kind"] == "xobj" and top != "file":
+                        out.append("%s[0] = 1;" % n)                          # write through the re-exposed linked name
+                    elif it["kind"] == "xfunc" and top != "file":
+                        out.append("(void)%s();" % n)                         # call: must be the function, not a hiding object
             elif op == "define":
                 for c in C:
                     out.append("#define %s%s %d" % (self.nm(it["name"], c), "()" if it["kind"] == "fmacro" else "", self.U(it["id"], c)))
@@ -882,6 +890,12 @@ def scope_check(ctx, objdir, hooks, exe):
     if not any(it.get("how") == "funcx" for c in fx for it in c["prog"]):
         raise vlib.MachineryError("MC_CScope_fx generated no multi-declarator function definition")
     scope_programs(ctx, objdir, exe, fx, "funcx", audit_n=40 if q else 300)
+    # declarations with linkage in nested blocks behind hiding declarations
+    r = ctx.tlc_must_pass("CScope", "MC_CScope_link.cfg", workers=2, simulate=30 if q else 250, depth=150, timeout=1200)
+    lk = [json.loads(v) for v in r.vcases]
+    if {"xobj", "xfunc"} - set(it.get("kind") for c in lk for it in c["prog"] if it["op"] == "use"):
+        raise vlib.MachineryError("MC_CScope_link generated no use of a linked object / function")
+    scope_programs(ctx, objdir, exe, lk, "linkage", audit_n=50 if q else 300)
     # selection / iteration statements with unbraced substatements: each substatement and the statement are blocks
     r = ctx.tlc_must_pass("CScope", "MC_CScope_stmt.cfg", workers=2, simulate=30 if q else 250, depth=170, timeout=1200)
     st = [json.loads(v) for v in r.vcases]
@@ -990,7 +1004,7 @@ def run(ctx):
             for m in re.finditer(r"^<(\w+) line \d+, col \d+ to line \d+, col \d+ of module (\w+) \((\d+) \d+ \d+ \d+\)>: (\d+):(\d+)", r.out, re.M):
                 cov["%s@%s:%s" % (m.group(1), m.group(2), m.group(3))] = (int(m.group(4)), int(m.group(5)))   # disjuncts of a Next without own name
             r.coverage = cov
-            untaken = [a for a, (found, gen) in r.coverage.items() if gen == 0 and a.split("@")[0] not in ("Turn", "OpenFuncX", "OpenStmt", "OpenSub", "CloseSub", "CloseStmt")]
+            untaken = [a for a, (found, gen) in r.coverage.items() if gen == 0 and a.split("@")[0] not in ("Turn", "OpenFuncX", "OpenStmt", "OpenSub", "CloseSub", "CloseStmt", "DeclLinked")]
             # Turn: Deep only; OpenFuncX / statement scopes: enabled only in MC_CScope_fx / _stmt (simulation), where
             # scope_check itself refuses to continue unless every shape / statement form was generated
             ctx.cov.setdefault("untaken_actions", []).extend(untaken)
